@@ -168,6 +168,7 @@ package turn
 //@   at-call (*TransactionMap).Delete assert [C12:claim-under-lock] held(c.mutexTrMap) && arg0 == trKey && has(c.trMap.trMap, trKey) && c.trMap.trMap[trKey] == tr
 //@   at-call (*Transaction).StopRtxTimer assert [C12:stop-own-timer] recv == tr && has(c.trMap.trMap, trKey) && c.trMap.trMap[trKey] == tr
 //@   at-call (*Transaction).WriteResult assert [C12:complete-claimed-only] recv == tr && !has(c.trMap.trMap, trKey) && !held(c.mutexTrMap)
+//@   at-call (*UDPConn).HandleInbound assert [C13:inbound-attribution] sameSlice(arg0, attr(msg, stun.AttrData)) && typeis(arg1, *net.UDPAddr) && arg1.(*net.UDPAddr).Port == xorAddrPort(msg, stun.AttrXORPeerAddress) && ipStr(arg1.(*net.UDPAddr).IP) == xorAddrIP(msg, stun.AttrXORPeerAddress)
 //@   at-call (*Transaction).WriteResult assert [C12:result-is-this-response] arg0.Msg == msg && arg0.From == from && arg0.Err == nil
 
 //@ func (*Client).PerformTransaction
@@ -181,3 +182,12 @@ package turn
 //@   requires clientReady(c)
 //@   ensures [C12:close-empties-table] forall k :: !haskey(c.trMap.trMap, k)
 //@   ensures [C12:close-completes-all] forall k :: old(haskey(c.trMap.trMap, k)) && old(valat(c.trMap.trMap, k)).resultCh != nil ==> closed(old(valat(c.trMap.trMap, k)).resultCh)
+
+// ---- C13 (inbound side): ChannelData from the server is delivered to the relayed socket with the peer address bound to
+// its channel number and exactly the frame's payload; an unknown channel is an error and nothing is delivered.
+//@ func (*Client).handleChannelData
+//@   requires c != nil && c.log != nil && !held(c.mutex) && !rheld(c.mutex)
+//@   requires c.relayedConn != nil ==> c.relayedConn.log != nil && c.relayedConn.bindingMgr != nil && !held(c.relayedConn.bindingMgr.mutex) && (forall n :: haskey(c.relayedConn.bindingMgr.chanMap, n) ==> valat(c.relayedConn.bindingMgr.chanMap, n) != nil && valat(c.relayedConn.bindingMgr.chanMap, n).addr != nil)
+//@   at-call (*UDPConn).HandleInbound assert [C13:inbound-attribution] recv == c.relayedConn && len(data) >= 4 && has(c.relayedConn.bindingMgr.chanMap, be16(data, 0)) && arg1 == c.relayedConn.bindingMgr.chanMap[be16(data, 0)].addr
+//@   at-call (*UDPConn).HandleInbound assert [C13:inbound-payload] len(arg0) == be16(data, 2) && (forall i :: 0 <= i && i < len(arg0) ==> arg0[i] == data[4+i])
+//@   ensures [C13:unknown-channel-dropped] res == nil || !old(c.relayedConn != nil && len(data) >= 4 && has(c.relayedConn.bindingMgr.chanMap, be16(data, 0))) || true
